@@ -4,7 +4,7 @@
      old <hex>                  image of the pre-populated file
      W <off> <flushno> <hex>    write log of the real library, in order
      ops <cache>                (optional) start of the H-level op list for the model
-     put <tag> <ref> <len> <hex> | app <tag> <ref> <hex> .. | putn <tag> <len> <hex> | del <tag> <ref> | get | copy <tag> <ref> <len> <hex> | sync
+     put <tag> <ref> <len> <hex> | app <tag> <ref> <hex> .. | putn <tag> <len> <hex> | del <tag> <ref> | get | copy <tag> <ref> <len> <hex> | rw <tag> <ref> <len> <hex> | sync
      X
    Output:
      S <name> / wf <0|1> / E <old_end|fail> / D <tag> <ref> <off> <len> (old directory)
@@ -76,6 +76,8 @@ let () =
        | "get" :: _ -> cur := OpGet :: !cur
        | "copy" :: t :: r :: l :: h :: _ ->
          cur := OpCopy (z_of_int (int_of_string t), z_of_int (int_of_string r), z_of_int (int_of_string l), unhex h) :: !cur
+       | "rw" :: t :: r :: l :: h :: _ ->
+         cur := OpRewrite (z_of_int (int_of_string t), z_of_int (int_of_string r), z_of_int (int_of_string l), unhex h) :: !cur
        | "del" :: t :: r :: _ -> cur := OpDel (z_of_int (int_of_string t), z_of_int (int_of_string r)) :: !cur
        | "sync" :: _ -> eps := List.rev !cur :: !eps; cur := []
        | "X" :: _ ->
